@@ -2,7 +2,8 @@
 (* Trace specification for C12: judges recorded INIT negotiations of the real stacks (events written
    by harness/src/bin/initx.rs) against the A-level of FuseInit: ReplyOK with the `want` set the
    filesystem really returned (observed through the server's MetricsHook), SwitchesOK with the
-   switches observed by probes, refusal of a second INIT by the VFS. Monitor mode. The outcome
+   switches observed by probes, refusal of a second INIT by the VFS, and a second session (DESTROY or not, then
+   an INIT offering something else, probes again) judged by the INIT that is in force. Monitor mode. The outcome
    predicted by the I-level is compared too (DRIFT lines, not violations). *)
 EXTENDS FuseInit, Json, IOUtils, Sequences
 Rec == ndJsonDeserialize(IOEnv.TRACE)
@@ -24,6 +25,43 @@ Why(kk, r, want) ==
   ELSE IF r.flags2 # {} /\ "INIT_EXT" \notin r.flags THEN "flags2-without-INIT_EXT"
   ELSE IF r.max_pages # 0 /\ "MAX_PAGES" \notin r.flags THEN "max_pages-without-MAX_PAGES"
   ELSE "max_write"
+WhichSw(r, t) == IF t.no_open /\ "ZERO_MESSAGE_OPEN" \notin Honoured(r) THEN "no_open" ELSE
+                 IF t.no_opendir /\ "ZERO_MESSAGE_OPENDIR" \notin Honoured(r) THEN "no_opendir" ELSE
+                 IF t.writeback /\ "WRITEBACK_CACHE" \notin Honoured(r) THEN "writeback" ELSE
+                 IF t.killpriv /\ "HANDLE_KILLPRIV_V2" \notin Honoured(r) THEN "killpriv" ELSE "dax"
+\* the second session of the case: (DESTROY,) INIT with another offer, probes again
+Second(e, kk, r, t) ==
+  LET s == e.second
+      k2 == [stack |-> s.k.stack, major |-> s.k.major, minor |-> s.k.minor, flags |-> ToSet(s.k.flags), flags2 |-> ToSet(s.k.flags2),
+             ext |-> s.k.ext, want |-> ToSet(s.k.want), sw |-> s.k.sw]
+      r2 == [status |-> s.r.status, size |-> s.r.size, flags |-> ToSet(s.r.flags), flags2 |-> ToSet(s.r.flags2), major |-> s.r.major,
+             max_write |-> s.r.max_write, max_pages |-> s.r.max_pages]
+      want2 == ToSet(s.want.bits)
+      t2 == [no_open |-> s.t.no_open, no_opendir |-> s.t.no_opendir, writeback |-> s.t.writeback, killpriv |-> s.t.killpriv, dax |-> s.t.dax]
+      na == ToSet(e.t.na) \cup ToSet(s.t.na)
+      tag == "|second" \o (IF s.destroyed THEN "-after-destroy" ELSE "") \o "|"
+      live == kk.major = "eq" /\ r.status = "ok"
+      p == SecondSession(kk, [r |-> r, t |-> t, called |-> live], k2, s.destroyed)
+  IN /\ Chk(MaySend(k2), "C12|harness|second-offer-not-sendable", s.k)
+     \* an accepted INIT is judged like the first one; whatever INIT is in force bounds the switches
+     /\ Chk(~live \/ r2.status # "ok" \/ ReplyOK(k2, r2, want2), "C12|" \o kk.stack \o tag \o "reply|" \o Why(k2, r2, want2), <<s.k, s.r, s.want>>)
+     /\ Chk(~live \/ SwitchesOK(InForce(r, r2), t2), "C12|" \o kk.stack \o tag \o "switch-on-without-negotiation|" \o WhichSw(InForce(r, r2), t2),
+            <<e.k, e.r, s.k, s.r, s.t>>)
+     \* a refused INIT changes nothing
+     /\ Chk(~live \/ r2.status = "ok" \/ \A x \in DOMAIN t2 : x \in na \/ t2[x] = t[x], "C12|" \o kk.stack \o tag \o "refused-init-changed-switches",
+            <<e.t, s.t>>)
+     \* the VFS's own record: untouched by a refused INIT, its switches bounded by the INIT in force, and a backend mounted
+     \* afterwards is initialised with exactly what that INIT negotiated
+     /\ kk.stack # "vfs_pt" \/ ~live \/
+          /\ Chk(r2.status = "ok" \/ s.t.vo = e.t.vo, "C12|vfs_pt" \o tag \o "refused-init-changed-options", <<e.t.vo, s.t.vo>>)
+          /\ LET h == Honoured(InForce(r, r2)) IN
+             Chk((s.t.vo.no_open => "ZERO_MESSAGE_OPEN" \in h) /\ (s.t.vo.no_opendir => "ZERO_MESSAGE_OPENDIR" \in h),
+                 "C12|vfs_pt" \o tag \o "vfs-switch-on-without-negotiation", <<s.t.vo, h>>)
+          /\ Chk(s.late.init /\ ToSet(s.late.capable) = (IF r2.status = "ok" THEN want2 ELSE ToSet(e.want.bits)),
+                 "C12|vfs_pt" \o tag \o "late-backend-capabilities", <<s.late, s.want.bits, e.want.bits>>)
+     /\ IF ~live \/ (p.r.status = r2.status /\ p.r.size = r2.size /\ p.r.flags = r2.flags /\ p.r.flags2 = r2.flags2
+                      /\ \A x \in DOMAIN t2 : x \in na \/ p.t[x] = t2[x])
+        THEN TRUE ELSE PrintT(<<"DRIFT", l, "second", s.how, s.destroyed, e.k, p.r, p.t, s.r, s.t>>)
 Check(e) ==
   LET kk == KOf(e)  r == ROf(e)  want == ToSet(e.want.bits)
       t == [no_open |-> e.t.no_open, no_opendir |-> e.t.no_opendir, writeback |-> e.t.writeback, killpriv |-> e.t.killpriv, dax |-> e.t.dax]
@@ -35,7 +73,12 @@ Check(e) ==
                   IF t.no_opendir /\ "ZERO_MESSAGE_OPENDIR" \notin Honoured(r) THEN "no_opendir" ELSE
                   IF t.writeback /\ "WRITEBACK_CACHE" \notin Honoured(r) THEN "writeback" ELSE
                   IF t.killpriv /\ "HANDLE_KILLPRIV_V2" \notin Honoured(r) THEN "killpriv" ELSE "dax"), <<e.k, e.r, e.t>>)
-     /\ Chk(~(kk.stack = "vfs_pt" /\ kk.major = "eq" /\ r.status = "ok") \/ e.second = "EINVAL", "C12|vfs_pt|second-init-accepted", e.second)
+     /\ Chk(~(kk.stack = "vfs_pt" /\ kk.major = "eq" /\ r.status = "ok" /\ ~e.second.destroyed) \/ e.second.r.status = "EINVAL",
+            "C12|vfs_pt|second-init-accepted", e.second.r.status)
+     /\ ~(kk.stack = "vfs_pt" /\ kk.major = "eq" /\ r.status = "ok") \/
+          Chk((e.t.vo.no_open => "ZERO_MESSAGE_OPEN" \in Honoured(r)) /\ (e.t.vo.no_opendir => "ZERO_MESSAGE_OPENDIR" \in Honoured(r)),
+              "C12|vfs_pt|vfs-switch-on-without-negotiation", <<e.t.vo, e.r>>)
+     /\ Second(e, kk, r, t)
      /\ LET p == e.pred IN
         IF p.r.status = r.status /\ p.r.size = r.size /\ ToSet(p.r.flags) = r.flags /\ ToSet(p.r.flags2) = r.flags2
            /\ (r.status # "ok" \/ kk.major # "eq" \/ kk.minor = "m4" \/ (p.r.max_write = r.max_write /\ p.r.max_pages = r.max_pages))
